@@ -1,23 +1,24 @@
 // Copyright (c) ZeroC, Inc.
 
-use crate::diagnostics::{Diagnostic, Diagnostics, Error};
+use crate::diagnostics::{Diagnostic, Diagnostics, Error, Note};
 use crate::grammar::*;
-use std::collections::HashSet;
+use std::collections::HashMap;
 
 pub fn validate_dictionary(dictionary: &Dictionary, diagnostics: &mut Diagnostics) {
     has_allowed_key_type(dictionary, diagnostics);
 }
 
 fn has_allowed_key_type(dictionary: &Dictionary, diagnostics: &mut Diagnostics) {
-    if let Some(e) = check_dictionary_key_type(&dictionary.key_type, &mut HashSet::new()) {
+    if let Some(e) = check_dictionary_key_type(&dictionary.key_type, &mut HashMap::new()) {
         e.push_into(diagnostics)
     }
 }
 
 /// Checks whether the provided type can be used as a dictionary key, and returns an error describing why if it can't.
-/// `valid_structs` holds the identifiers of the compact structs that were already found to be valid keys: their fields
-/// aren't checked again (the same struct can be reached through many paths, and their number can grow exponentially).
-fn check_dictionary_key_type(type_ref: &TypeRef, valid_structs: &mut HashSet<String>) -> Option<Diagnostic> {
+/// `checked_structs` holds the compact structs whose fields were already checked, with a note for each field that isn't
+/// a valid key type: their fields aren't checked again (the same struct can be reached through many paths, and their
+/// number can grow exponentially).
+fn check_dictionary_key_type(type_ref: &TypeRef, checked_structs: &mut HashMap<String, Vec<Note>>) -> Option<Diagnostic> {
     // Optional types cannot be used as dictionary keys.
     if type_ref.is_optional {
         return Some(Diagnostic::new(Error::KeyMustBeNonOptional).set_span(type_ref.span()));
@@ -31,31 +32,29 @@ fn check_dictionary_key_type(type_ref: &TypeRef, valid_structs: &mut HashSet<Str
                 return Some(Diagnostic::new(Error::StructKeyMustBeCompact).set_span(type_ref.span()));
             }
 
-            // If we've already checked the fields of this struct, and they're all valid key types, we're done.
-            if valid_structs.contains(&struct_def.parser_scoped_identifier()) {
-                return None;
+            // Check that all the fields of the struct are also valid key types (unless we've already checked them).
+            // We collect the invalid fields so we can report them in the error message.
+            let struct_id = struct_def.parser_scoped_identifier();
+            if !checked_structs.contains_key(&struct_id) {
+                let notes = struct_def
+                    .fields()
+                    .into_iter()
+                    .filter_map(|field| check_dictionary_key_type(field.data_type(), checked_structs))
+                    .map(|error| Note { message: error.message(), span: error.span().cloned() })
+                    .collect::<Vec<_>>();
+                checked_structs.insert(struct_id.clone(), notes);
             }
 
-            // Check that all the fields of the struct are also valid key types.
-            // We collect the invalid fields so we can report them in the error message.
-            let errors = struct_def
-                .fields()
-                .into_iter()
-                .filter_map(|field| check_dictionary_key_type(field.data_type(), valid_structs))
-                .collect::<Vec<_>>();
-            if !errors.is_empty() {
-                let mut error = Diagnostic::new(Error::StructKeyContainsDisallowedType {
+            // Report each invalid field as a note on the struct key error.
+            let notes = checked_structs.get(&struct_id).map(Vec::as_slice).unwrap_or_default();
+            if !notes.is_empty() {
+                let error = Diagnostic::new(Error::StructKeyContainsDisallowedType {
                     struct_identifier: struct_def.identifier().to_owned(),
                 })
-                .set_span(type_ref.span());
-
-                // Convert each error into a note and add it to the struct key error.
-                for e in errors {
-                    error = error.add_note(e.message(), e.span());
-                }
+                .set_span(type_ref.span())
+                .extend_notes(notes.iter().map(|note| Note { message: note.message.clone(), span: note.span.clone() }));
                 return Some(error);
             }
-            valid_structs.insert(struct_def.parser_scoped_identifier());
             true
         }
 
